@@ -233,7 +233,15 @@ func c02Slice(c *Ctx) {
 	trees, _ := c02Counts(c.Tier)
 	k := c.Case - len(c02Panel) - trees
 	var rec spg.CharRecipe
-	switch k % 8 {
+	switch k % 10 {
+	case 8: // an alphabet larger than a byte can index
+		cs := ""
+		for r := rune(0x4e00); r < 0x4e00+300; r++ {
+			cs += string(r)
+		}
+		rec = spg.CharRecipe{Length: 3, AllowChars: cs, Allow: spg.Digits}
+	case 9: // a long password
+		rec = spg.CharRecipe{Length: 300, Allow: spg.Digits | spg.Symbols}
 	case 0:
 		rec = *spg.NewCharRecipe(20)
 	case 1:
@@ -261,7 +269,14 @@ func c02Slice(c *Ctx) {
 	L := rec.Length
 	// base script whose other positions already satisfy every requirement
 	base := make([]uint32, L)
-	for pos := 0; pos < L; pos++ {
+	step := 1
+	if L > 40 {
+		step = 7 // long passwords: every 7th position and the last one
+	}
+	for pos := 0; pos < L; pos += step {
+		if step > 1 && pos+step >= L {
+			pos = L - 1
+		}
 		baseOK := len(sem.ReqLive) == 0
 		for try := 0; ; try++ {
 			for i := range base {
